@@ -775,22 +775,31 @@ func (f *transformationCallable) updateEntries(item reflect.Value, owned map[uin
 		return newEvalError(ErrIllegalUpdate, f.updates, nil)
 	}
 
-	for _, key := range updates.MapKeys() {
+	keys := updates.MapKeys()
+	vals := make([]reflect.Value, len(keys))
+
+	// A value that contains an object of the copy (e.g. the
+	// object being updated itself, |$|{"self": $}|) is inserted
+	// as a snapshot. Inserting it as it is would make the
+	// result cyclic: it could no longer be encoded as JSON and
+	// walking it (**, $string) would not terminate. All snapshots
+	// are taken before the first member is inserted, so that what
+	// they show does not depend on the order of the insertions.
+	for i, key := range keys {
 
 		val := updates.MapIndex(key)
 
-		// A value that contains an object of the copy (e.g. the
-		// object being updated itself, |$|{"self": $}|) is inserted
-		// as a snapshot. Inserting it as it is would make the
-		// result cyclic: it could no longer be encoded as JSON and
-		// walking it (**, $string) would not terminate.
 		if sharesMaps(val, owned) {
 			if val, err = f.clone(val); err != nil {
 				return newEvalError(ErrClone, nil, nil)
 			}
 		}
 
-		item.SetMapIndex(key, val)
+		vals[i] = val
+	}
+
+	for i, key := range keys {
+		item.SetMapIndex(key, vals[i])
 	}
 
 	return nil
